@@ -193,6 +193,8 @@ PROPS = {
                      "open/close/close_with_error/drop and peer header/garbage header/open/close/close+error/begin (no, known, unknown "
                      "remote-channel)/end/flow on an unmapped channel/empty frame/EOF; corpus of former disagreements first; thorough adds "
                      "all 2000 scripts of length 3 over a 10-letter alphabet from scratch and after open;ph;po"},
+            {"name": "c17", "n_quick": 600, "n_thorough": 10000, "model": "coq/Conn/Timers.v",
+             "rule": "the timed scripts of C17 (peer idle-time-out set: heartbeats must stop once a close, with or without error, is written)"},
         ],
         "rule": "a case is one script run against the real client ConnectionEngine over tokio::io::duplex (paused clock, one event per "
                 "barrier) and through the extracted Coq step function; compared per step: frames written (kind, close error condition), "
@@ -207,5 +209,29 @@ PROPS = {
         "assumptions": ["the peer writes whole frames (partial frames/garbage are C15)", "no session is begun (C13 covers sessions)"],
         "partial": ["interleavings finer than one event per barrier (two stimuli racing inside one select!) are not explored by the "
                     "correspondence; the model's theorems quantify over event lists"],
+    },
+    "C17": {
+        "class_prefixes": ["c17-", "harness-crash"],
+        "subs": [
+            {"name": "c17", "n_quick": 1500, "n_thorough": 30000, "model": "coq/Conn/Timers.v",
+             "rule": "local idle-time-out from {unset, 0, 34, 50, 98, 202, 1002} ms, peer idle-time-out from {unset, 0, 16, 24, 40, 96, 200, 1000} ms; "
+                     "0-2 delays, the peer's open, then 1..8 (thorough 1..14) of wait / peer empty frame / close / close_with_error / peer close, "
+                     "each followed by a delay drawn from fixed values and from just below / at / just above both time-outs; all times are "
+                     "arranged (residues mod 8) so that no two timers or stimuli share a millisecond and every trace is deterministic"},
+            {"name": "c11", "n_quick": 2000, "n_thorough": 100000, "model": "coq/Session/Ids.v",
+             "rule": "chn cases: pairs of local/remote channel-max from {0,1,2,3,4,5,65535} and histories of allocate-session / end+deallocate / "
+                     "peer begin / peer end / route on one real Connection (the lnk cases of the same run belong to C11)"},
+        ],
+        "rule": "c17: a case is one timed script run against the real client connection under tokio's paused clock (every frame the endpoint "
+                "writes is stamped with the virtual time of the write by a reader task) and through the extracted Coq model; compared: "
+                "advertised idle-time-out, every frame with its time, EOF time, results of open/close/on_close; non-trivial = at least one "
+                "heartbeat or an idle time-out occurred. c11: see C11.",
+        "trusted": ["model scope: HeartBeat (tokio interval: first tick at once, then every period), ConnectionEngine::{open_inner heartbeat set-up, "
+                    "on_heartbeat}, Transport poll_next deadline handling and IdleTimeout::reset, builder halving of the advertised value, "
+                    "Connection::allocate_session bound; tokio's timer wheel itself is trusted (paused clock, 1 ms resolution)"],
+        "assumptions": ["no two timers/stimuli in the same millisecond (the order inside tokio::select! would be random)",
+                        "no session traffic: a connection engine blocked on a full session channel sends no heartbeats - not modelled"],
+        "partial": ["heartbeats are shown for a connection without session traffic; back-pressure from a session that does not drain its "
+                    "incoming channel can delay them in the real engine (the engine awaits the channel inside select!)"],
     },
 }
